@@ -1,50 +1,55 @@
 import MlodaVerif.Model.OptIdent
 /-! # `ExecutionPlan.group_features_by_compute_framework_and_options` and `_split_features_by_dependency_levels` (C15)
 
-The grouping dictionary is keyed by the hash **value** (`Dict[int, Set[Feature]]`), exactly as coded; the key type
-`K` is any type with decidable equality (`int` in the code), the key functions are parameters:
-`sim f = f.has_similarity_properties()`, `base f = f.base_similarity_properties()`.  The dict is an association list
-in insertion order; each group is the list of its members in insertion order; `pick g` is `next(iter(group))`
-(some member of the group — which one is decided by CPython's set layout, so it is a parameter). -/
+Since commit dc1e740 the grouping dictionary is keyed by the key **value** (`Feature.similarity_key()` =
+`(options, frozenset(frameworks)[, data_type])`), not by its hash: a `dict` lookup finds the stored key that is `==` to
+the looked-up one (`Options.__eq__`, i.e. group dictionaries compared with Python `==`); equal keys hash equal
+(`C15.options_eq_hash_coherent`), so the hash only narrows the search.  The model: the dict is an association list in
+insertion order, `keq stored looked_up` is the key comparison (a parameter; `pyEq` on the key tuples in the
+instantiation), lookup = first entry whose stored key is `keq` to the looked-up key.  Each group is the list of its
+members in insertion order; `pick g` is `next(iter(group))` (some member — which one is CPython's set layout, so it is
+a parameter). -/
 
 namespace OptGroup
 
-variable {α : Type} {K : Type} [DecidableEq K]
+variable {α : Type} {K : Type}
 
-/-- `hash_collector[k].add(x)` on a `defaultdict(set)` -/
-def addTo (coll : List (K × List α)) (k : K) (x : α) : List (K × List α) :=
+/-- `hash_collector[k].add(x)` on a `defaultdict(set)` keyed by key values -/
+def addTo (keq : K → K → Bool) (coll : List (K × List α)) (k : K) (x : α) : List (K × List α) :=
   match coll with
   | [] => [(k, [x])]
-  | (k', g) :: t => if k' = k then (k', g ++ [x]) :: t else (k', g) :: addTo t k x
+  | (k', g) :: t => if keq k' k then (k', g ++ [x]) :: t else (k', g) :: addTo keq t k x
 
-/-- first pass: features with a declared type, keyed by `has_similarity_properties()` -/
-def pass1 (sim : α → K) (typed : List α) (coll : List (K × List α)) : List (K × List α) :=
-  typed.foldl (fun c f => addTo c (sim f) f) coll
+/-- first pass: features with a declared type, keyed by `similarity_key()` -/
+def pass1 (keq : K → K → Bool) (sim : α → K) (typed : List α) (coll : List (K × List α)) : List (K × List α) :=
+  typed.foldl (fun c f => addTo keq c (sim f) f) coll
 
-/-- the `for existing_hash, group in hash_collector.items()` scan: key of the first group whose picked member has
-the wanted base hash -/
-def findGroup (base : α → K) (pick : List α → Option α) (coll : List (K × List α)) (b : K) : Option K :=
+/-- the `for existing_hash, group in hash_collector.items()` scan: stored key of the first group whose picked member
+has a base key `==` to the wanted one (`any_feature.base_similarity_key() == base_hash`) -/
+def findGroup (keq : K → K → Bool) (base : α → K) (pick : List α → Option α) (coll : List (K × List α)) (b : K) :
+    Option K :=
   match coll with
   | [] => none
   | (k, g) :: t =>
     match pick g with
-    | some a => if base a = b then some k else findGroup base pick t b
-    | none => findGroup base pick t b
+    | some a => if keq (base a) b then some k else findGroup keq base pick t b
+    | none => findGroup keq base pick t b
 
 /-- one iteration of the second pass for an undeclared-type feature -/
-def place (base : α → K) (pick : List α → Option α) (coll : List (K × List α)) (f : α) : List (K × List α) :=
-  match findGroup base pick coll (base f) with
-  | some k => addTo coll k f
-  | none => addTo coll (base f) f
-
-def pass2 (base : α → K) (pick : List α → Option α) (untyped : List α) (coll : List (K × List α)) :
+def place (keq : K → K → Bool) (base : α → K) (pick : List α → Option α) (coll : List (K × List α)) (f : α) :
     List (K × List α) :=
-  untyped.foldl (place base pick) coll
+  match findGroup keq base pick coll (base f) with
+  | some k => addTo keq coll k f
+  | none => addTo keq coll (base f) f
+
+def pass2 (keq : K → K → Bool) (base : α → K) (pick : List α → Option α) (untyped : List α)
+    (coll : List (K × List α)) : List (K × List α) :=
+  untyped.foldl (place keq base pick) coll
 
 /-- `group_features_by_compute_framework_and_options(features)`; `fs` = the set in its iteration order -/
-def groupBy (isTyped : α → Bool) (sim base : α → K) (pick : List α → Option α) (fs : List α) :
+def groupBy (keq : K → K → Bool) (isTyped : α → Bool) (sim base : α → K) (pick : List α → Option α) (fs : List α) :
     List (K × List α) :=
-  pass2 base pick (fs.filter (fun f => !isTyped f)) (pass1 sim (fs.filter isTyped) [])
+  pass2 keq base pick (fs.filter (fun f => !isTyped f)) (pass1 keq sim (fs.filter isTyped) [])
 
 /-- two features share a group of the result -/
 def SameGroup (res : List (K × List α)) (f g : α) : Prop := ∃ e ∈ res, f ∈ e.2 ∧ g ∈ e.2
